@@ -461,6 +461,23 @@ class Totality:
                     conds = self.dominating_conditions(view, block)
                 if not cond_holds(req["cond"], req["truth"], conds):
                     return False
+            if "bound_from" in req:
+                # every run-time bound of the slice operation (range start / end, split_at mid) is read from the result
+                # of the named foreign call (whose post-condition the row's reason states)
+                t = view.blocks[block]["term"]
+                if t["t"] != "call" or len(t["args"]) < 2:
+                    return False
+                bounds = []
+                ra = self._range_arg(view, None, None, t["args"][1])
+                if ra is not None:
+                    bounds = [o for o in (ra[1], ra[2]) if o is not None]
+                else:
+                    bounds = [t["args"][1]]
+                for o in bounds:
+                    if view.const_of_operand(o) is not None or o.get("o") == "const":
+                        continue
+                    if not self._derives_from_call(view, o, req["bound_from"]):
+                        return False
             if "receiver_from" in req:
                 # the value the site consumes (first argument of unwrap / expect ...) is the direct result of a call
                 # to the named function, e.g. `write!(buffer, ..)` = Write::write_fmt
@@ -472,6 +489,36 @@ class Totality:
                         ch[1]["fn"].get("def") != req["receiver_from"]:
                     return False
         return True
+
+    @staticmethod
+    def _derives_from_call(view, op, callee, depth=12):
+        """op is a copy / field read / Try::branch payload of the value returned by a call to `callee`."""
+        seen = set()
+        while depth > 0 and op.get("o") in ("copy", "move"):
+            depth -= 1
+            l = op["l"]
+            if l in seen:
+                return False
+            seen.add(l)
+            d = view.single_def(l)
+            if d is None:
+                return False
+            if d[1] == "term":
+                nm = ir.callee_name(d[2]["fn"]) or ""
+                if nm == callee or d[2]["fn"].get("def") == callee:
+                    return True
+                if nm.endswith("::try_trait::Try>::branch") and d[2]["args"]:
+                    op = d[2]["args"][0]
+                    continue
+                return False
+            rv = d[2]["rv"]
+            if rv["r"] == "use":
+                op = rv["a"]
+            elif rv["r"] in ("ref",):
+                op = {"o": "copy", "l": rv["pl"]["l"], "p": rv["pl"]["p"]}
+            else:
+                return False
+        return False
 
     @staticmethod
     def _root_fn(key):
@@ -492,7 +539,8 @@ class Totality:
             for r in self.table.get(owner) or ():
                 if r.get("kind", kind) != kind:
                     continue
-                if r.get("what") == what or (r.get("any_ordinal") and r.get("what") == base):
+                if r.get("what") == what or (r.get("any_ordinal") and r.get("what") == base) \
+                        or (r.get("any_what") and base in r["any_what"]):
                     self._row_owner = owner
                     return r
         return None
